@@ -413,7 +413,14 @@ def check(run: Run) -> None:
             if fld == "capacity_available" and held:
                 run.finding("C16.f", "QueuePolicyStorage::stop:notify-under-lock", "notify_all must follow the lock scope", loc=fa.loc(node))
         fl = R.flow(run, fa)
-        R.k2_precede(run, "C16.f", fl, R.store_is(r"accepting", r"false"), R.call_is(name="notify_all"), "accepting:=false before notify_all")
+        wake = fl.nodes_of(R.call_is(name="notify_all", recv=r"capacity_available"))
+        run.count(1, "C16.f.wake-all")
+        if not wake:
+            others = [f"{n_.recv}.{n_.name}" for n_ in fl.cfg.nodes if n_.kind == "call" and n_.name.startswith("notify")]
+            run.finding("C16.f", "QueuePolicyStorage::stop:not-notify-all", "stop must wake EVERY producer blocked in send_blocking (capacity_available.notify_all()); "
+                        f"found {others or 'no notification'}: with two or more blocked producers all but one wait for ever and stop never returns", loc=PUSH)
+        else:
+            R.k2_precede(run, "C16.f", fl, R.store_is(r"accepting", r"false"), R.call_is(name="notify_all"), "accepting:=false before notify_all")
         fa = R.fn(run, PUSH, "push_source_stop")
         fl = R.flow(run, fa)
         chain = [R.call_is(name="begin_close"), R.call_is(callee=r"detail::PushSourcePolicyAccess::stop"),
@@ -486,6 +493,7 @@ def cn_text(node, cn) -> str:
 ANYARGS = ("anyargs",)
 
 VARIANTS = [
+    {"id": "f-stop-wakes-one-producer", "expect": "C16.f", "edits": [{"file": PUSH, "find": "                    consumer_thread = {};\n                }\n                capacity_available.notify_all();", "replace": "                    consumer_thread = {};\n                }\n                capacity_available.notify_one();"}]},
     {"id": "a-unlocked-read", "expect": "C16.a", "edits": [{"file": PUSH, "find": "            [[nodiscard]] std::size_t pending_items() const noexcept\n            {\n                std::lock_guard lock{mutex};\n                return values.size();", "replace": "            [[nodiscard]] std::size_t pending_items() const noexcept\n            {\n                return values.size();"}]},
     {"id": "a-realtime-flag-unlocked", "expect": "C16.a", "edits": [{"file": EXEC, "find": "            auto &state = realtime_storage(memory);\n            std::lock_guard lock{state.mutex};\n            return state.push_update_pending;", "replace": "            auto &state = realtime_storage(memory);\n            return state.push_update_pending;"}]},
     {"id": "a-bracket-removed", "expect": "C16", "edits": [{"file": PUSH, "find": "                if (!enter())\n                {\n                    return false;\n                }\n                auto leave_call = make_scope_exit([this] { leave(); });\n                if (push_engine_.stop_requested())\n                {\n                    return false;\n                }\n\n                const PushSourceSendResult result =\n                    policy_.ops_->try_send_impl", "replace": "                if (push_engine_.stop_requested())\n                {\n                    return false;\n                }\n\n                const PushSourceSendResult result =\n                    policy_.ops_->try_send_impl"}]},
